@@ -687,7 +687,9 @@ def run_e2e(ctx, case):
                 v = float(np.ravel(post.funcs[i](s_))[0])
                 if abs(v - cut) < 1e-9:
                     continue
-                w = (v < cut) * prior_pdf * reg.volume
+                # a region may reach beyond the support of the prior U(-2.5, 2.5): the prior density of such a draw is 0
+                pr_s = prior_pdf if -2.5 <= float(np.ravel(s_)[0]) <= 2.5 else 0.0
+                w = (v < cut) * pr_s * reg.volume
                 ctx.event('e2e_weights_checked')
                 if not reg.contains(s_):
                     raise Violation('e2e-sample-outside-region', 'ROMC drew a sample outside its region')
